@@ -611,9 +611,7 @@ class Server(service.MultiService):
         for app_id in sorted(self.get_all_apps()):
             log.msg(" app prune checking %r" % (app_id,))
             app = self.get_app(app_id)
-            in_use = app.prune(now, old)
-            if not in_use:
-                del self._apps[app_id]
+            app.prune(now, old)
         log.msg("app prune ends, %d apps" % len(self._apps))
 
     def dump_stats(self, now, rebooted):
